@@ -20,7 +20,7 @@ Definition op_ok (s s' : st) (o : op) : bool :=
   | Open w | Create w | TryOpen w | OpenLock w => is_live s' w
   | OpenFd w | CreateFd w => match s_hs s' w with Some _ => true | None => false end
   | GiveUp _ | Drop _ | Kill _ => true
-  | Put w _ | Commit w | Vacuum w => is_live s w
+  | Put w _ | Commit w | Vacuum w | Touch w | EnableVec w => is_live s w
   | Doctor w => is_live (try_open_with open_lock_impl s w) w
   end.
 
